@@ -726,6 +726,7 @@ Definition path_class (b : bstate) : string :=
 (* one executed step as observed on the implementation (real step methods on real RegionInfo, the
    command really sent by SendScheduleCommand, applied by harness/internal/tikvsim) *)
 Record tobs := TObs {
+  t_safe_raw : bool;         (* CheckSafety == nil on the region before, evaluated unconditionally *)
   t_fin_before : bool;       (* IsFinish before anything is sent *)
   t_safe : bool;             (* CheckSafety == nil   (true when not evaluated) *)
   t_cmd : option cmd;        (* what was put on the wire *)
@@ -735,8 +736,8 @@ Record tobs := TObs {
   t_region : region          (* the region afterwards *)
 }.
 
-Definition obs_after (r : region) (s : step) (fb sf : bool) (c : option cmd) (acc : bool) : tobs :=
-  TObs fb sf c acc (conf_ver_changed r s) (is_finish r s) r.
+Definition obs_after (r0 r : region) (s : step) (fb sf : bool) (c : option cmd) (acc : bool) : tobs :=
+  TObs (safe r0 s) fb sf c acc (conf_ver_changed r s) (is_finish r s) r.
 
 (* every step is attempted in turn, also after a failure (the monitor stops at the first failure,
    the trace comparison does not) *)
@@ -745,11 +746,11 @@ Fixpoint trace_of (r : region) (ss : list step) : list tobs :=
   | [] => []
   | s :: rest =>
       match exec_step r s with
-      | RSkip => obs_after r s true true None false :: trace_of r rest
-      | RUnsafe _ => obs_after r s false false None false :: trace_of r rest
-      | RNoCmd => obs_after r s false true None false :: trace_of r rest
-      | RRejected c => obs_after r s false true (Some c) false :: trace_of r rest
-      | RDone c r' => obs_after r' s false true (Some c) true :: trace_of r' rest
+      | RSkip => obs_after r r s true true None false :: trace_of r rest
+      | RUnsafe _ => obs_after r r s false false None false :: trace_of r rest
+      | RNoCmd => obs_after r r s false true None false :: trace_of r rest
+      | RRejected c => obs_after r r s false true (Some c) false :: trace_of r rest
+      | RDone c r' => obs_after r r' s false true (Some c) true :: trace_of r' rest
       end
   end.
 
@@ -783,7 +784,7 @@ Definition cmd_eqb (a b : cmd) : bool :=
   end.
 
 Definition tobs_eqb (a b : tobs) : bool :=
-  Bool.eqb (t_fin_before a) (t_fin_before b) && Bool.eqb (t_safe a) (t_safe b)
+  Bool.eqb (t_safe_raw a) (t_safe_raw b) && Bool.eqb (t_fin_before a) (t_fin_before b) && Bool.eqb (t_safe a) (t_safe b)
   && opt_eqb cmd_eqb (t_cmd a) (t_cmd b) && Bool.eqb (t_accepted a) (t_accepted b)
   && (t_cvc a =? t_cvc b) && Bool.eqb (t_fin_after a) (t_fin_after b) && region_eqb (t_region a) (t_region b).
 
@@ -796,12 +797,14 @@ Definition bout_eqb (a b : bout) : bool :=
 
 Inductive ccase :=
 | CBuild (i : binput) (out : bout) (tr : list tobs)                   (* NewBuilder ... Build *)
-| CLeave (c : cluster) (r : region) (out : bout) (tr : list tobs).    (* CreateLeaveJointStateOperator *)
+| CLeave (c : cluster) (r : region) (out : bout) (tr : list tobs)     (* CreateLeaveJointStateOperator *)
+| CProbe (r : region) (ss : list step) (tr : list tobs).              (* arbitrary steps on an arbitrary region: step.go only *)
 
-Definition case_region (c : ccase) : region := match c with CBuild i _ _ => i_region i | CLeave _ r _ _ => r end.
-Definition case_out (c : ccase) : bout := match c with CBuild _ o _ | CLeave _ _ o _ => o end.
-Definition case_trace (c : ccase) : list tobs := match c with CBuild _ _ t | CLeave _ _ _ t => t end.
-Definition model_out (c : ccase) : bout := match c with CBuild i _ _ => build i | CLeave cl r _ _ => leave_joint_op cl r end.
+Definition case_region (c : ccase) : region := match c with CBuild i _ _ => i_region i | CLeave _ r _ _ | CProbe r _ _ => r end.
+Definition case_out (c : ccase) : bout := match c with CBuild _ o _ | CLeave _ _ o _ => o | CProbe _ ss _ => Built ss false false end.
+Definition case_trace (c : ccase) : list tobs := match c with CBuild _ _ t | CLeave _ _ _ t | CProbe _ _ t => t end.
+Definition model_out (c : ccase) : bout :=
+  match c with CBuild i _ _ => build i | CLeave cl r _ _ => leave_joint_op cl r | CProbe _ ss _ => Built ss false false end.
 
 (* None = model and implementation agree *)
 Definition check_case (c : ccase) : option (string * bout * list (nat * option tobs * option tobs)) :=
